@@ -12,7 +12,7 @@ META = {
                  'driving the REAL ComputePatches / RequestCache through gated callbacks and comparing with the Lean models + Go race detector runs',
     'design_ref': 'DESIGN.md §5 C16',
     'text': 'PARTIAL. Proved (all schedules, any number of tasks/callers/keys, kernel-checked): two complete delivery orders of ComputePatches collect the same multiset of '
-            'patches and, when Compare-equal patches are identical and target versions are all parsable or all unparsable, return the same list; Patch.Compare satisfies '
+            'patches, contain exactly the collected patches in their result whatever the version comparison does, and, when the version comparison is a strict weak order on the target versions present (all parsable under one ecosystem's order — npm, Maven and PyPI tables are exercised — or all unparsable), return the same list, strictly increasing w.r.t. Patch.Compare (sorted, no duplicates); without that hypothesis duplicates can survive (decided witness); Patch.Compare satisfies '
             'SortFunc\'s precondition among patches with >=1 update; the worklist terminates when the introducible vulnerabilities are finite; RequestCache: single flight per key, '
             'no fetch started after a success until the next SetMap, fetch count <= failures + 1; LINEARIZABLE w.r.t. the sequential map-with-fetch-on-miss whenever SetMap does not overlap '
             'a fetch (explicit linearization: legal sequential history ending in the actual cache, every completed Get in it once with its real result at a point inside its interval, order = '
@@ -24,7 +24,7 @@ META = {
             'schedules only (all enumerated cache/patch schedules and whole scans lasting longer than the 2 s status interval); third-party clients\' internal locking is not covered.',
     'note': 'In model (a) the nondeterminism is the delivery order of attempt results; an attempt (with its resolve-client and matcher callbacks) is assumed to be a deterministic function '
             'of its vuln-id list — an assumption, exercised by free runs through a shared stateful linearizable fake client, not a theorem. Theorems named _partial carry a hypothesis that '
-            'narrows the property (CmpEqImpliesEq, strict-weak-order of the version comparison on the versions present — false for mixed forms and, by C07, for Maven in general —, finiteness, '
+            'narrows the property (strict-weak-order of the version comparison on the versions present — false for mixed forms and, by C07, for Maven in general —, finiteness, '
             'SetMap not overlapping a fetch). Trusted: Lean kernel; the go/ast translator tickerdump (copies field names, access sites, lock regions faithfully; irregular lock shapes make the theorem fail); the Go '
             'harness (gates inside callbacks, VerifWaiters reads the WaitGroup waiter count through an overlay export) and the line protocol; slices.SortFunc/CompactFunc by contract '
             '(for <=12 elements a stable insertion sort); Go race detector for the runtime part.',
@@ -32,7 +32,7 @@ META = {
 NS = 'Scalibr.C16.'
 THEOREMS = [NS + t for t in [
     'C16_confluent', 'C16_tasks_confluent', 'C16_final_partial', 'C16_schedule_independent_partial', 'C16_spec_partial', 'C16_patchcmp_order_partial',
-    'C16_patchcmp_order_parsed_partial', 'C16_patchcmp_order_unparsed', 'C16_patchcmp_mixed_cycle', 'C16_patchcmp_needs_updates', 'C16_compare_total', 'C16_cmpeq_holds',
+    'C16_patchcmp_order_parsed_partial', 'C16_patchcmp_order_unparsed', 'C16_patchcmp_mixed_cycle', 'C16_patchcmp_needs_updates', 'C16_compare_total', 'C16_cmpeq_holds', 'C16_output_members', 'C16_output_sorted_partial', 'C16_output_nodup_partial', 'C16_output_nodup_needs_order',
     'C16_final_formerly_order_dependent',
     'C16_terminates_partial', 'C16_terminates_needs_finite',
     'C16_cache_inv', 'C16_cache_once', 'C16_cache_linearizable_partial', 'C16_cache_realtime', 'C16_cache_setmap_overlap_not_linearizable',
@@ -40,7 +40,7 @@ THEOREMS = [NS + t for t in [
 SITES = ['dopen', 'readdir', 'gitignore', 'stat', 'fopen', 'extract']
 TICKER_THEOREM = NS + 'C16_ticker_guarded'
 CACHETABLE_THEOREM = NS + 'C16_cache_guarded'
-COMPARE = ['res', 'ret', 'f', 'cls', 'maps']
+COMPARE = ['res', 'done', 'ret', 'f', 'cls', 'maps']
 
 
 def run_race_binary(binary, args, timeout=1800):
@@ -79,17 +79,15 @@ def show_patch(p):
         return p
 
 
-def compare_classes(res):
-    """what Patch.Compare can see of a result: per patch the (name, VersionTo) of its updates and the NUMBER of fixed / introduced vulns"""
-    out = []
-    for p in ([] if res in ('-', '') else res.split(';')):
-        try:
-            ups, fixed, intro = p.split('~')
-        except ValueError:
-            return None
-        cnt = lambda x: 0 if x in ('-', '') else len(x.split(','))
-        out.append((tuple((e.split(':')[0], e.split(':')[2]) for e in ups.split(',') if e != '-'), cnt(fixed), cnt(intro)))
-    return out
+def patch_set_verdict(got, spec, how):
+    """C16_output_members + C16_confluent need NO hypothesis: whatever the comparator does to the order (and to duplicates), the result
+    contains exactly the patches of the closure"""
+    g = set() if got in ('-', '') else set(got.split(';'))
+    w = set() if spec in ('-', '') else set(spec.split(';'))
+    if g == w:
+        return None
+    return ('ComputePatches %s returned a list whose SET of patches differs from the closure\'s (comparator not a strict weak order here, so order and multiplicity are '
+            'unspecified, membership is not): missing %s, extra %s' % (how, [show_patch(p) for p in sorted(w - g)][:3], [show_patch(p) for p in sorted(g - w)][:3]))
 
 
 def patches_verdict(got, spec, how):
@@ -110,7 +108,7 @@ def patches_verdict(got, spec, how):
     return 'ComputePatches %s returned %d patch(es) where the schedule-independent result has %d — %s' % (how, len(g), len(w), ' | '.join(what))
 
 
-def history_oracle(case, fi):
+def history_oracle(case, fi, stats=None):
     """The sequential specification of C16_cache_linearizable_partial (a map with fetch-on-miss) judged on the IMPLEMENTATION's
     observed history (reply field hist=), independently of the Lean model's step semantics:
       * the fetch function is never running twice at once for one key (single flight);
@@ -195,9 +193,9 @@ def history_oracle(case, fi):
     return out()
 
 
-def cache_oracle(case, fi):
+def cache_oracle(case, fi, stats=None):
     """the cache specification evaluated on the IMPLEMENTATION's reply, from the case line alone"""
-    hv = history_oracle(case, fi)
+    hv = history_oracle(case, fi, stats)
     if hv:
         return hv
     t = case.split(' ')
@@ -369,6 +367,8 @@ def run(ctx):
     # 3. correspondence streams (all schedules), implementation vs model, specification judged on the implementation
     n = {'quick': 60, 'thorough': 400}[ctx.tier]
     by_universe = {}
+    deviations = [0]
+    lin_stats = {'histories': 0, 'linearizability_judged': 0, 'skipped_setmap_overlaps_fetch': 0, 'skipped_too_long': 0}
 
     def nontrivial(case, fi, fm):
         t = case.split(' ')
@@ -380,59 +380,45 @@ def run(ctx):
 
     def oracle(case, fi, fm):
         t = case.split(' ')
-        if t[0] == 'patches':
-            r = fi.get('res', fi.get('_', ''))
+        if t[0] in ('patches', 'pfree'):
+            r = fi.get('res', fi.get('_', '')) if t[0] == 'patches' else fi.get('out', fi.get('_', ''))
+            how = ('under the delivery order %s' % '/'.join('[' + ','.join(bytes.fromhex(x).decode('utf-8', 'replace') for x in k.split('.')) + ']' for k in t[5].split('/') if k != '-')
+                   if t[0] == 'patches' else 'run freely under the Go scheduler (%s: GOMAXPROCS/repetition)' % t[5])
             if r == 'panic':
-                return 'ComputePatches panicked'
+                return 'ComputePatches panicked (%s)' % how
+            if t[0] == 'pfree' and fi.get('client') == 'stateful':
+                # single flight + caching of the shared client: never more fetches than distinct (package, version) pairs in the universe
+                bound = len({e for kv in t[4].split('|') if '=' in kv and kv.split('=')[1] != 'E' for e in kv.split('=')[1].split('@')[0].split(',')})
+                if int(fi.get('fetches', '0')) > min(bound, int(fi.get('lookups', '0'))):
+                    return 'the shared RequestCache of the stateful client fetched %s times for %s lookups of at most %d distinct keys' % (fi.get('fetches'), fi.get('lookups'), bound)
+            if 'spec' not in fm or fm['spec'] == 'nonterminating' or r.startswith(('desync', 'incomplete', 'bad-schedule', 'error')):
+                return None
             # the specification does not need the model's run of this schedule: also judged when the implementation made calls the
             # model's worklist never has (res=bad-schedule on the model side)
-            if fm.get('cmpeq') == '1' and fm.get('order') == '1' and 'spec' in fm and fm['spec'] != 'nonterminating' \
-                    and not r.startswith(('desync', 'incomplete', 'unspecified', 'bad-schedule')):
-                return patches_verdict(r, fm['spec'], 'under the delivery order %s' % '/'.join(
-                    '[' + ','.join(bytes.fromhex(x).decode('utf-8', 'replace') for x in k.split('.')) + ']' for k in t[5].split('/') if k != '-'))
-            return classes_verdict(r, fm, 'under the delivery order ' + t[5])
-        if t[0] == 'pfree' and fm.get('cmpeq') == '0':
-            return classes_verdict(fi.get('out', ''), fm, 'run freely (%s)' % t[5])
-        if t[0] == 'pfree':
-            r = fi.get('out', fi.get('_', ''))
-            if r == 'panic':
-                return 'ComputePatches panicked (free run %s)' % t[5]
-            if fm.get('cmpeq') == '1' and fm.get('order') == '1' and 'spec' in fm and fm['spec'] != 'nonterminating' and r != 'error':
-                return patches_verdict(r, fm['spec'], 'run freely under the Go scheduler (%s: GOMAXPROCS/repetition)' % t[5])
-            return None
-        return cache_oracle(case, fi)
-
-    def classes_verdict(r, fm, how):
-        # universes where Compare-equal patches are NOT identical (CmpEqImpliesEq fails): which representative survives CompactFunc is the
-        # known order dependence; but the sequence of Compare-classes — one per attempt of the closure that Compare can tell apart — is still
-        # schedule-free (same multiset, sorted by a strict weak order, one survivor per class), so it must equal the specification's
-        if fm.get('cmpeq') == '0' and fm.get('order') == '1' and 'spec' in fm and not r.startswith(('desync', 'incomplete', 'unspecified', 'bad-schedule', 'error', 'panic')):
-            a, b = compare_classes(r), compare_classes(fm['spec'])
-            if a is not None and b is not None and a != b:
-                return ('ComputePatches %s returned patches %s; up to Patch.Compare-equality the schedule-independent result is %s (a whole Compare-class of patches is missing or extra, '
-                        'not just another representative of it)' % (how, [show_patch(p) for p in r.split(';')][:6], [show_patch(p) for p in fm['spec'].split(';')][:6]))
-        return None
+            if fm.get('order') == '1':
+                return patches_verdict(r, fm['spec'], how)
+            return patch_set_verdict(fi.get('raw', r), fm['spec'], how)
+        return cache_oracle(case, fi, lin_stats)
 
     def classify(case, fi, fm):
         t = case.split(' ')
         if t[0] == 'patches':
             head = ' '.join(t[:5])
-            u = by_universe.setdefault(head, {'cmpeq': fm.get('cmpeq'), 'order': fm.get('order'), 'res': set(), 'n': 0, 'sample': {}})
+            u = by_universe.setdefault(head, {'order': fm.get('order'), 'res': set(), 'n': 0, 'sample': {}})
             u['res'].add(fi.get('raw', fi.get('res')))
+            deviations[0] += 1 if fi.get('dev') == '1' else 0
             u['sample'].setdefault(fi.get('raw', fi.get('res')), case)
             u['n'] += 1
-            if fm.get('cmpeq') != '1':
-                u['cmpeq'] = fm.get('cmpeq')
             depth = max(k.split('=')[0].count('.') for k in t[4].split('|')) if t[4] != '-' else 0
-            return 'patches grouped=%s cmpeq=%s order=%s ids<=%d' % (t[1], fm.get('cmpeq'), fm.get('order'), depth + 1)
+            return 'patches mode=%s order=%s ids<=%d' % (t[1], fm.get('order'), depth + 1)
         if t[0] == 'pfree':
             head = 'patches ' + ' '.join(t[1:5])          # free runs of a universe belong to the same group as its enumerated delivery orders
-            u = by_universe.setdefault(head, {'cmpeq': fm.get('cmpeq'), 'order': fm.get('order'), 'res': set(), 'n': 0, 'sample': {}})
+            u = by_universe.setdefault(head, {'order': fm.get('order'), 'res': set(), 'n': 0, 'sample': {}})
             if fi.get('out') not in (None, 'error', 'panic'):
                 u['res'].add(fi['out'])
                 u['sample'].setdefault(fi['out'], case)
             depth = max(k.split('=')[0].count('.') for k in t[4].split('|')) if t[4] != '-' else 0
-            return 'free grouped=%s ids<=%d %s' % (t[1], depth + 1, t[5].split('r')[0])
+            return 'free mode=%s ids<=%d %s%s' % (t[1], depth + 1, t[5].split('r')[0], ' stateful-client' if fi.get('client') == 'stateful' else '')
         return 'cache callers=%d keys=%d setmap=%s' % (t[1].count(',') + 1, len(set(t[1].split(','))), '1' if ',S' in t[2] else '0')
 
     if not ctx.replay or any(l.startswith(('patches ', 'cache ', 'pfree ')) for l in open(ctx.replay)):
@@ -447,31 +433,27 @@ def run(ctx):
             judge_free(ctx, rows, oracle, classify, nontrivial, 'c16gen -mode free')
     # schedule independence observed on the implementation itself, per universe
     nu = len(by_universe)
-    viol = {'cmpeq_violated': 0, 'mixed_version_forms': 0, 'of_which_results_differ_across_schedules': 0}
-    finding_reported = False
+    viol = {'mixed_version_forms': 0, 'of_which_result_LISTS_differ_across_schedules': 0}
     for head, u in by_universe.items():
-        hyp = u['cmpeq'] == '1' and u['order'] == '1'
+        hyp = u['order'] == '1'
         res = {r for r in u['res'] if r and not r.startswith(('desync', 'bad-schedule', 'incomplete'))}
         if hyp and len(res) > 1 and sum(1 for v in ctx.violations if v[2]) < 3:
-            ctx.violation('ComputePatches returned %d different results for ONE input under different delivery orders (hypotheses hold): %s' % (len(res), sorted(res)[:2]),
+            ctx.violation('ComputePatches returned %d different results for ONE input under different delivery orders (hypothesis holds): %s' % (len(res), sorted(res)[:2]),
                           [u['sample'][r] for r in sorted(res)[:3]])
         if not hyp:
-            viol['cmpeq_violated' if u['cmpeq'] != '1' else 'mixed_version_forms'] += 1
+            # comparator cyclic (mixed parsable/unparsable target versions): the list is unspecified, but its SET of patches is not (C16_output_members)
+            viol['mixed_version_forms'] += 1
             if len(res) > 1:
-                viol['of_which_results_differ_across_schedules'] += 1
-                # the property demands ONE result per input whatever the delivery order; where Compare-equal patches differ (CmpEqImpliesEq false,
-                # comparator still a strict weak order) the unchanged code does not deliver that: finding class C16/compare-equal-distinct-patches
-                if u['cmpeq'] != '1' and u['order'] == '1':
-                    rs = sorted(res)
-                    what = ('%d different results for ONE input under different delivery orders: Patch.Compare ignores Fixed/Introduced ids, VersionFrom, Transitive, Type, so '
-                            'CompactFunc keeps whichever of two Compare-equal but different patches was delivered first, e.g. %s vs %s'
-                            % (len(rs), [show_patch(p) for p in rs[0].split(';')][:4], [show_patch(p) for p in rs[1].split(';')][:4]))
-                    if not ctx.known_finding('C16/compare-equal-distinct-patches', what) and not finding_reported:
-                        finding_reported = True
-                        ctx.violation('ComputePatches is not schedule-independent on this input — ' + what, [u['sample'][r] for r in rs[:3]])
+                viol['of_which_result_LISTS_differ_across_schedules'] += 1
+            sets = {frozenset(r.split(';')) for r in res}
+            if len(sets) > 1 and sum(1 for v in ctx.violations if v[2]) < 3:
+                ctx.violation('ComputePatches returned different SETS of patches for ONE input under different delivery orders (no hypothesis needed for this): %s' % sorted(res)[:2],
+                              [u['sample'][r] for r in sorted(res)[:3]])
     ctx.extra['universes'] = nu
     ctx.extra['schedules_per_universe_max'] = max([u['n'] for u in by_universe.values()] or [0])
     ctx.extra['hypothesis_violations'] = viol
+    ctx.extra['controller_deviations_dev1'] = deviations[0]
+    ctx.extra['cache_history_oracle'] = lin_stats
 
     # 4. runtime part: the race detector
     race_bin = ctx.go_build('c16gen', race=True)
